@@ -88,6 +88,13 @@ class Interp(object):
         if isinstance(e, ast.Call):
             nm = e.func.id if isinstance(e.func, ast.Name) else (e.func.attr if isinstance(e.func, ast.Attribute) else None)
             args = e.args
+            if nm in ('max', 'min') and len(args) == 2 and not e.keywords:
+                # a clamp bounds even an unknown value on one side
+                a_, b_ = self.ev(args[0], env), self.ev(args[1], env)
+                a_ = (-INF, INF) if a_ is TOP else a_
+                b_ = (-INF, INF) if b_ is TOP else b_
+                r_ = (max(a_[0], b_[0]), max(a_[1], b_[1])) if nm == 'max' else (min(a_[0], b_[0]), min(a_[1], b_[1]))
+                return TOP if r_ == (-INF, INF) else r_
             if nm in ('float', 'fabs', 'abs', 'degrees', 'radians', 'round', 'int', 'floor', 'atan', 'atan2', 'sin', 'cos', 'asin', 'acos', 'sqrt', 'fmod', 'remainder') and args:
                 if nm == 'atan':
                     return (-math.pi / 2, math.pi / 2)
